@@ -705,6 +705,9 @@ def printer_programs():
                                Print(Match(S("a\"b"), [([S("a\"b")], S("hit\n1")), ([S("x"), S("y\\")], S("other"))], S("dflt")))))
     add("string_keys", main(Let("o", ObjK([("plain", I(1)), ("with space", I(2)), ("kebab-case", I(3)), ("9start", I(4)), ("quote\"d", I(5))])), Print(V("o")),
                             Let("j", MCall(V("o"), "to_json")), Print(V("j"))))
+    # values whose types cannot be written in a program: builtins with variable argument lists, diverging blocks, none
+    add("unwritable_types", main(Let("pr", V("println")), Expr(CallV(V("pr"), S("x"), I(1))), Let("ps", List(V("print"), V("println"))), Expr(CallV(Idx(V("ps"), I(1)), S("y"))),
+                                 Let("o", Obj(f=V("println"))), Expr(CallV(Mem(V("o"), "f"), S("z")))))
     # keys which read like an identifier only after something was skipped or cut: blanks and comments around it, other
     # separators inside, keywords, nothing at all - and the bare identifier next to them in the same object
     odd = ["k ", " k", "k\t", "k\n", "y//z", "k/* */", "/**/k", "a.b", "a:b", "a,b", "", "fn", "let", "true", "none", "_", "__x", "k1", "1k", "\u00e4", "a\u00e4", "k;", "(k)", "$k", "@k", "k?"]
